@@ -16,6 +16,7 @@ pub mod rng;
 pub mod sim;
 pub mod nodes;
 pub mod certw;
+pub mod commdrv;
 pub mod creds;
 pub mod wire;
 pub mod e1;
